@@ -17,10 +17,11 @@ Definition numdkcfg (c : config) (crit : criterion) (k : cleanup) : Prop :=
   c_rot c = Some (crit, NNumbersDirect, k) /\ fts (c_spec c) = false /\ c_symlink c = false /\ c_async c = false
   /\ c_bg c = false.
 
-(* side conditions, needed only when there is a cleanup: the suffix is not (and does not end with .)gz, and all
-   indices - the one of the current file, L, included - have five digits *)
+(* side condition, needed only when there is a cleanup: the suffix is not (and does not end with .)gz.  There is no
+   condition on the number L of closed files any more (the listing is ordered by the NUMBER of the infix); the argument is
+   kept for the statements that mention it *)
 Definition dside (c : config) (k : cleanup) (L : nat) : Prop :=
-  match klimd k with None => True | Some _ => sfx_ok (c_spec c) /\ (N.of_nat L < 100000)%N end.
+  match klimd k with None => True | Some _ => sfx_ok (c_spec c) end.
 
 (* with L closed files (the current file is r<L>): the archives are lo <= i < mid, the plain files mid <= i <= L *)
 Definition d_lo (k : cleanup) (L : nat) : nat := match klimd k with None => 0 | Some (n, m) => S L - (n + m) end.
@@ -39,7 +40,7 @@ Proof. unfold d_mid. destruct (klimd k) as [[n m]|] eqn:E; [|reflexivity]. apply
 Lemma d_mid_le k L : d_mid k L <= L.
 Proof. unfold d_mid. destruct (klimd k) as [[n m]|] eqn:E; [|lia]. apply klimd_pos in E. lia. Qed.
 Lemma dside_le c k L L' : L <= L' -> dside c k L' -> dside c k L.
-Proof. unfold dside. destruct (klimd k); [|auto]. intros H [A B]. split; [exact A | lia]. Qed.
+Proof. intros _ H. exact H. Qed.
 
 (* ------------------------------------------------------------------ the invariant *)
 (* the directory is described by kdir (NumCleanupStep.v) over the list of ALL numbered files: the closed ones and, as
@@ -70,11 +71,10 @@ Lemma cleanup_dk c crit k w wr closed lo mid :
 Proof.
   intros (Hrot & Hts & Hlink & Has & Hbg) Hside I. pose proof I as [Q W Hc Hcp Hmid KD Hnc Hwr Hcap].
   unfold dside, dnew_lo, dnew_mid in *. destruct (klimd k) as [[n m]|] eqn:Ek.
-  - destruct Hside as [Hsfx HL]. pose proof (klimd_pos _ _ _ Ek) as Hn.
+  - pose proof Hside as Hsfx. pose proof (klimd_pos _ _ _ Ek) as Hn.
     set (all := closed ++ [content (wfs w) (wino wr)]) in *.
     assert (Elen : length all = S (length closed)) by (unfold all; apply len_snoc).
-    assert (HL' : (N.of_nat (length all) <= 100000)%N) by (rewrite Elen; lia).
-    destruct (cleanup_numbers_d c w k n m all lo mid Hts Hsfx HL' Ek Q W KD) as (w' & E & S & W' & KD' & SC & SR).
+    destruct (cleanup_numbers_d c w k n m all lo mid Hts Hsfx Ek Q W KD) as (w' & E & S & W' & KD' & SC & SR).
     rewrite Elen in KD', SR.
     assert (SL : same_at (wfs w) (wfs w') (rname c (length closed))) by (apply SR; lia).
     destruct (same_at_content _ _ _ _ SL Hc) as [Lc' Ic'].
